@@ -81,14 +81,63 @@ def reference(n, inc, incR, flags, rt, rflag):
     return marked
 
 
+class NotTerminating(Exception):
+    pass
+
+
+def _with_alarm(seconds, fn, *a):
+    """analyze_templates must terminate: a run that exceeds the budget (normal runs take milliseconds) is reported as a failure"""
+    import signal
+
+    def on_alarm(signum, frame):
+        raise NotTerminating(f"analyze_templates did not return within {seconds} s")
+
+    old = signal.signal(signal.SIGALRM, on_alarm)
+    signal.alarm(seconds)
+    try:
+        return fn(*a)
+    finally:
+        signal.alarm(0)
+        signal.signal(signal.SIGALRM, old)
+
+
+def _pick(x, n: int) -> int:
+    for v in range(n):
+        if x == v:
+            return v
+    raise AssertionError("outside the precondition")
+
+
+def _agree(n, inc, incR, flags, rt, rflag, variant, preset) -> bool:
+    try:
+        got = _with_alarm(20, analyze, ctx, n, inc, incR, flags, rt, rflag, variant, preset)
+    except NotTerminating:
+        ctx.db_conn.rollback()
+        return False
+    return got == reference(n, inc, incR, flags, rt, rflag)
+
+
 def agree(n, inc, incR, flags, rt, rflag, variant="lc", preset=()) -> bool:
-    return analyze(ctx, n, inc, incR, flags, rt, rflag, variant, preset) == reference(n, inc, incR, flags, rt, rflag)
+    """CrossHair replaces functools.lru_cache wrappers by the undecorated function while it traces; analyze_templates relies
+    on get_page's memo being dropped at the right moments, so the solver only chooses the graph (case split by comparisons)
+    and the analysis itself runs untraced, on the real memo and the real store."""
+    from crosshair.tracers import NoTracing, is_tracing
+
+    if is_tracing():
+        inc = [[_pick(e, 3) for e in row] for row in inc]
+        incR = [True if r else False for r in incR]
+        with NoTracing():
+            return _agree(n, inc, incR, flags, rt, rflag, variant, preset)
+    return _agree(n, inc, incR, flags, rt, rflag, variant, preset)
 
 
 def replay_case(n, inc, incR, flags, rt, rflag, variant="lc", preset=()):
     c = Wtp(quiet=True, quiet_output=True)
-    got = analyze(c, n, inc, incR, flags, rt, rflag, variant, preset)
     want = reference(n, inc, incR, flags, rt, rflag)
+    try:
+        got = _with_alarm(20, analyze, c, n, inc, incR, flags, rt, rflag, variant, preset)
+    except NotTerminating as e:
+        got = {"<" + str(e) + ">"}
     edges = [f"{NAMES[i]} includes {NAMES[j] if inc[i][j] == 1 else VARIANTS[variant](NAMES[j])!r}" for i in range(n) for j in range(n) if inc[i][j]]
     edges += [f"{NAMES[i]} includes {RNAME}" for i in range(n) if rt >= 0 and incR[i]]
     red = "" if rt < 0 else f"; redirect {RNAME} -> {NAMES[rt] if rt < n else 'Nowhere'}{' (flagged)' if rflag else ''}"
